@@ -176,7 +176,19 @@ def ps_call(f, *args, **kw):
             return m_int_from_bytes(*args, **kw)
         if s is bytes and f.__name__ == 'fromhex':
             return f(*args, **kw)
+    # a proxy must never reach un-modelled C code through a call: library code often catches
+    # TypeError (import cascades), which would turn an engine leak into a wrong verdict
+    modname = getattr(f, '__module__', None) or getattr(getattr(f, '__self__', None), '__module__', None)
+    if modname in _DENY_MODULES:
+        raise Inconclusive("un-modelled C function %s.%s called with a symbolic argument"
+                           % (modname, getattr(f, '__name__', f)))
     return f(*args, **kw)
+
+
+_DENY_MODULES = frozenset(['binascii', '_struct', 'struct', 'math', 'zlib', 'hashlib', '_hashlib', 're', '_sre',
+                           'base64', 'ctypes', '_ctypes', 'cffi', '_cffi_backend', 'codecs', '_codecs',
+                           'itertools', 'functools', '_functools', 'operator', '_operator', 'json', 'time',
+                           'os', 'posix', 'io', '_io'])
 
 
 def model(*fs):
@@ -261,10 +273,13 @@ def m_memoryview(x):
     return SymMemoryView(x)
 
 
-@model(int)
+@always(int)
 def m_int(x=0, base=None):
     if isinstance(x, SymInt):
         return x
+    v = getattr(x, '_value', None)
+    if isinstance(v, SymInt):       # Crypto.Math IntegerNative wrapping a symbolic value
+        return v
     if isinstance(x, SymBool):
         return x.as_int()
     if isinstance(x, (SymBytes, SymByteArray)):
